@@ -2,7 +2,7 @@
 From Coq Require Import List NArith ZArith Bool.
 From SK Require Import lib.LGraph lib.Mono.
 From SK Require model.C06_Model model.C11_Model.
-From SK Require Import model.C03_Model model.C05_Model proof.C05_Proof proof.C05_Glue proof.C05_Pipe proof.C05_Prep proof.C05_Comp proof.C05_Main proof.C05_Order proof.C05_Sub proof.C05_Set proof.C05_Result proof.C05_AllStrat proof.C05_PrepOrder proof.C05_Final.
+From SK Require Import model.C03_Model model.C05_Model proof.C05_Proof proof.C05_Glue proof.C05_Pipe proof.C05_Prep proof.C05_Comp proof.C05_Main proof.C05_Order proof.C05_Sub proof.C05_Set proof.C05_Result proof.C05_AllStrat proof.C05_PrepOrder proof.C05_Final proof.C05_Default.
 From SK Require Import lib.C06_Spec proof.C06_Comp.
 From SK Require proof.C11_Dedup.
 From Coq Require Import Permutation.
@@ -209,3 +209,26 @@ Lemma thm_strategy_subset_results :
     (forall T, In T (glued_of 1%N host p) -> exists T', In T' (glued_of 0%N host p) /\ obs_eq T T') /\
     (forall T, In T (glued_of 2%N host p) -> exists T', In T' (glued_of 0%N host p) /\ obs_eq T T').
 Proof. intros host p S. exact (glued_comp_subset_all host p (side_okb_c_ok _ _ S)). Qed.
+
+Lemma thm_pipeline_set_invariant_default :
+  forall (strat : N), strat = 0%N \/ strat = 1%N \/ strat = 2%N ->
+  forall (sg pi : N -> N) (inv : bool) (host host'' : hostg) (tpl tpl'' : its),
+    inj sg -> inj pi ->
+    (* both writings of the template: distinct ids, simple edge list, no hydrogen atom on either side, no h_pairs *)
+    nodupb (node_ids tpl) = true -> noHb tpl = true ->
+    (forall k a, In (k, a) (gnodes tpl) -> i_hp a = None \/ i_hp a = Some []) -> simple_edgesb (gedges tpl) = true ->
+    nodupb (node_ids tpl'') = true -> noHb tpl'' = true ->
+    (forall k a, In (k, a) (gnodes tpl'') -> i_hp a = None \/ i_hp a = Some []) -> simple_edgesb (gedges tpl'') = true ->
+    same_graph (relabel pi host) host'' -> same_graph (relabel sg tpl) tpl'' ->
+    pipeline inv false true strat host tpl = Some (glued_of strat host (prep_default inv tpl)) /\
+    pipeline inv false true strat host'' tpl'' = Some (glued_of strat host'' (prep_default inv tpl'')) /\
+    (side_okb_c (relabel pi host) (relabel_prep sg (prep_default inv tpl)) = true -> side_okb_c host'' (prep_default inv tpl'') = true ->
+     (forall T, In T (glued_of strat host (prep_default inv tpl)) ->
+        exists T'', In T'' (glued_of strat host'' (prep_default inv tpl'')) /\ obs_eq (relabel pi T) T'') /\
+     (forall T'', In T'' (glued_of strat host'' (prep_default inv tpl'')) ->
+        exists T, In T (glued_of strat host (prep_default inv tpl)) /\ obs_eq (relabel pi T) T'')).
+Proof.
+  intros strat Hst sg pi inv host host'' tpl tpl'' Hs Hp A1 A2 A3 A4 B1 B2 B3 B4 Hh Ht.
+  destruct (pipeline_default_set_invariant strat sg pi inv host host'' tpl tpl'' Hst Hs Hp A1 A2 A3 A4 B1 B2 B3 B4 Hh Ht) as (P1 & P2 & P3).
+  split; [exact P1|]. split; [exact P2|]. intros S S''. exact (P3 (side_okb_c_ok _ _ S) (side_okb_c_ok _ _ S'')).
+Qed.
